@@ -1089,20 +1089,35 @@ class MainProvider(ResolverMixin, BaseProvider):
 
         # Delete all instances in this class and subclasses and delete
         # this class and subclasses
-        for clname in classnames:
-            sub_clns = self._get_subclass_list_for_enums(ClassName, namespace,
-                                                         class_store)
+        # The deletion of an instance may be rejected by its provider after
+        # other instances (and for the namespace provider, their namespaces)
+        # have been deleted. The CIM repository must remain unchanged if
+        # DeleteClass fails, so its content is saved before the first
+        # instance is deleted.
+        saved_repository = None
+        try:
+            for clname in classnames:
+                sub_clns = self._get_subclass_list_for_enums(
+                    ClassName, namespace, class_store)
 
-            inst_paths = [inst.path for inst in instance_store.iter_values()
-                          if inst.path.classname in sub_clns]
+                inst_paths = [inst.path
+                              for inst in instance_store.iter_values()
+                              if inst.path.classname in sub_clns]
 
-            # Routes instance delete calls through the ProviderDispatcher to
-            # assure that providers get called rather than calling the
-            # CIM repository directly.
-            for ipath in inst_paths:
-                self.providerdispatcher.DeleteInstance(ipath)
+                if inst_paths and saved_repository is None:
+                    saved_repository = deepcopy(self.cimrepository)
 
-            class_store.delete(clname)
+                # Routes instance delete calls through the ProviderDispatcher
+                # to assure that providers get called rather than calling the
+                # CIM repository directly.
+                for ipath in inst_paths:
+                    self.providerdispatcher.DeleteInstance(ipath)
+
+                class_store.delete(clname)
+        except Exception:
+            if saved_repository is not None:
+                self.cimrepository.load(saved_repository)
+            raise
 
     ##########################################################
     #
